@@ -536,6 +536,65 @@ _PRESERVING = {"std::result::Result::map_err", "anyhow::Context::context", "anyh
                "std::result::Result::inspect_err", "std::option::Option::inspect", "std::result::Result::inspect"}
 
 
+def _int_constraints(body, bb):
+    """{operand key: ("in", {values}) | ("not", {values})} from the integer `match` arms / `== const` tests forced on the way to bb,
+    for operands that are assigned once (immutable)"""
+    out = {}
+    for c, truth in dominating_conditions(body, bb):
+        if c.kind == "int" and c.place is not None and isinstance(truth, tuple) and truth and truth[0] in ("in", "not"):
+            key = operand_key(body, {"k": "copy", "pl": c.place})
+            try:
+                vals = {int(v) for v in truth[1]}
+            except (TypeError, ValueError):
+                continue
+        elif c.kind == "cmp" and c.op in ("Eq", "Ne"):
+            ka, kb = operand_key(body, c.a), operand_key(body, c.b)
+            if kb[0] == "const" and kb[1] is not None and ka[0] == "place":
+                key, vals = ka, {int(kb[1])}
+            elif ka[0] == "const" and ka[1] is not None and kb[0] == "place":
+                key, vals = kb, {int(ka[1])}
+            else:
+                continue
+            eq = (c.op == "Eq") == bool(truth)
+            truth = ("in" if eq else "not", None)
+        else:
+            continue
+        if key[0] != "place" or len(key) != 2:
+            continue
+        nd = len([d for d in body.defs.get(key[1], []) if not d[2]])
+        if not ((1 <= key[1] <= body.arg_count and nd == 0) or nd == 1):
+            continue
+        kind = truth[0]
+        if key in out:
+            k0, v0 = out[key]
+            if k0 == "in" and kind == "in":
+                out[key] = ("in", v0 & vals)
+            elif k0 == "in" and kind == "not":
+                out[key] = ("in", v0 - vals)
+            elif k0 == "not" and kind == "in":
+                out[key] = ("in", vals - v0)
+            else:
+                out[key] = ("not", v0 | vals)
+        else:
+            out[key] = (kind, set(vals))
+    return out
+
+
+def _compatible(a, b):
+    """can the two constraint sets hold together?"""
+    for k, (ka, va) in a.items():
+        if k not in b:
+            continue
+        kb, vb = b[k]
+        if ka == "in" and kb == "in" and not (va & vb):
+            return False
+        if ka == "in" and kb == "not" and not (va - vb):
+            return False
+        if ka == "not" and kb == "in" and not (vb - va):
+            return False
+    return True
+
+
 # ---------------------------------------------------------------------------- intervals
 def int_ty(ty):
     return ty if ty in INT_RANGES else None
@@ -738,6 +797,14 @@ class Intervals:
         if not defs:
             return INT_RANGES[ty] if ty else None
         res = None
+        if len(defs) > 1 and self.bb is not None:
+            # `let w = match tag { 253 => 2, 254 => 4, .. }` read where `tag == 255` is known: only the assignments
+            # made under conditions that can hold together with the conditions known here contribute
+            here = _int_constraints(body, self.bb)
+            if here:
+                keep = [d for d in defs if _compatible(_int_constraints(body, d[0]), here)]
+                if keep:
+                    defs = keep
         for d in defs:
             if d[3] == "rv":
                 r = self._rv(d[4], depth + 1, ty)
